@@ -295,6 +295,26 @@ func c17RunEval(ctx *Ctx, c c17EvalCase) {
 		}
 		if calls != 0 {
 			ctx.Fail("options: the expression was evaluated although an option failed", desc)
+			return
+		}
+		// the EvaluateAs* helpers take the same options and must fail the same way
+		helpers := map[string]func() error{
+			"EvaluateAsString":    func() error { _, err := e.EvaluateAsString(input, eopts...); return err },
+			"EvaluateAsBool":      func() error { _, err := e.EvaluateAsBool(input, eopts...); return err },
+			"EvaluateAsInt32":     func() error { _, err := e.EvaluateAsInt32(input, eopts...); return err },
+			"EvaluateAsCanonical": func() error { _, err := e.EvaluateAsCanonical(input, eopts...); return err },
+		}
+		for _, name := range []string{"EvaluateAsBool", "EvaluateAsCanonical", "EvaluateAsInt32", "EvaluateAsString"} {
+			var herr error
+			if g := guard(func() { herr = helpers[name]() }); g.Panic != "" {
+				ctx.Fail("options: "+name+" panics: "+g.Panic, desc)
+				return
+			}
+			okErr := herr != nil && (!wantExisting || errors.Is(herr, fhirpath.ErrExistingConstant)) && (!wantUnsupported || errors.Is(herr, evalopts.ErrUnsupportedType))
+			if !okErr || calls != 0 {
+				ctx.Fail("options: "+name+" does not report the failing option (or evaluates anyway)", fmt.Sprintf("%s ; %s → err=%v calls=%d", desc, name, herr, calls))
+				return
+			}
 		}
 		return
 	}
@@ -414,7 +434,7 @@ type c17FnCase struct {
 	Ret  string   `json:"ret"`  // what the well-typed function returns: coll | err | empty
 }
 
-var c17FnKinds = []string{"good0", "good1", "good2", "good-proto", "bad-first", "bad-results", "bad-noerr", "non-func", "nil", "variadic", "builtin-name", "dup-name", "no-params"}
+var c17FnKinds = []string{"good0", "good1", "good2", "good-proto", "bad-first", "bad-results", "bad-noerr", "bad-concrete-error", "non-func", "nil", "variadic", "builtin-name", "dup-name", "no-params"}
 
 var c17Calls = []string{"%ints.g1(1)", "%ints.g0()", "g2(1, 'a')", "%names.gp(%name)", "%ints.g1('wrong type')", "%ints.g1(%ints)", "%ints.g1({})", "%ints.g1()", "%ints.g1(1, 2)", "%ints.g0(1)", "Patient.name.select(g1(2))", "%ints.where(g1(1).exists())", "1 + 1", "%ints.g1(1 + 1)", "%names.gp(1)"}
 
@@ -426,6 +446,10 @@ func c17GenFn(s Src) c17FnCase {
 	}
 	return c
 }
+
+type c17Err struct{}
+
+func (*c17Err) Error() string { return "c17" }
 
 func c17RunFn(ctx *Ctx, c c17FnCase) {
 	pat := fixturePatient()
@@ -482,6 +506,10 @@ func c17RunFn(ctx *Ctx, c c17FnCase) {
 			opts, bad = append(opts, compopts.AddFunction(name, func(x system.Integer) (system.Collection, error) { return nil, nil })), true
 		case "bad-results":
 			opts, bad = append(opts, compopts.AddFunction(name, func(in system.Collection) system.Collection { return in })), true
+		case "bad-concrete-error":
+			// the second result must be the interface type `error` itself: a concrete type that
+			// implements it would turn a nil *c17Err into a non-nil error
+			opts, bad = append(opts, compopts.AddFunction(name, func(in system.Collection) (system.Collection, *c17Err) { return in, nil })), true
 		case "bad-noerr":
 			opts, bad = append(opts, compopts.AddFunction(name, func(in system.Collection) (system.Collection, string) { return in, "" })), true
 		case "non-func":
